@@ -117,7 +117,7 @@ def run(pm, ctx):
         raise AnalysisError("anchor vanished: Douglas")
     ctx.rule("C15-a", "a masked feature must never enter the forward pass", floor=3)
     ctx.rule("C15-b", "(n_cuts+1)^(used features) leaves whose memberships are products of probability vectors", floor=4)
-    ctx.rule("C15-c", "cut gradients computed on sorted cuts must be mapped back to the cuts' own order", floor=3)
+    ctx.rule("C15-c", "the bin boundaries sit on the sorted cut points: unit-step slopes, b[j] = -(sum of the j smallest cuts) for every number of cuts (linear sequence map), logits divided by the temperature, the sorting order kept for the backward pass", floor=3)
     ctx.rule("C15-d", "active = a cut point strictly inside the feature's range", floor=1)
     inf, ip, cg, lb, ml, fa = (ci.methods.get(m) for m in ("_infer", "_init_params", "_compute_grads", "_leaf_binning", "_merge_leaf", "find_active_points"))
     if None in (inf, ip, cg, lb, ml, fa):
@@ -126,21 +126,63 @@ def run(pm, ctx):
     xp = func_params(inf)[1]
     uses = [n for n in ast.walk(inf) if isinstance(n, ast.Name) and n.id == xp and isinstance(n.ctx, ast.Load)]
     site = "Douglas._infer: reads of X"
-    bad = []
+    LIST = "self.cut_points_list_"
+    # expressions that denote the feature index of an item of cut_points_list_
+    idx_exprs = set()
+
+    def item_target(t):
+        if isinstance(t, ast.Tuple) and len(t.elts) == 2 and isinstance(t.elts[0], ast.Name):
+            idx_exprs.add(t.elts[0].id)
+        elif isinstance(t, ast.Name):
+            idx_exprs.add(f"{t.id}[0]")
+    for n in ast.walk(inf):
+        gens = n.generators if isinstance(n, (ast.ListComp, ast.GeneratorExp, ast.SetComp)) else ([n] if isinstance(n, ast.For) else [])
+        for g in gens:
+            it = norm_src(g.iter)
+            if it == LIST:
+                item_target(g.target)
+            elif it == f"enumerate({LIST})" and isinstance(g.target, ast.Tuple) and len(g.target.elts) == 2:
+                item_target(g.target.elts[1])
+    lambdas = {}
+    for n in ast.walk(inf):
+        if isinstance(n, ast.Assign) and isinstance(n.value, ast.Lambda) and len(n.targets) == 1 and isinstance(n.targets[0], ast.Name) and len(n.value.args.args) == 1:
+            lambdas[n.targets[0].id] = n.value
+    for n in ast.walk(inf):
+        if isinstance(n, ast.Call) and call_name(n) == "map" and len(n.args) == 2 and norm_src(n.args[1]) == LIST:
+            lam = n.args[0] if isinstance(n.args[0], ast.Lambda) else lambdas.get(norm_src(n.args[0]))
+            if lam is not None and len(lam.args.args) == 1:
+                idx_exprs.add(f"{lam.args.args[0].arg}[0]")
+    bad, odd = [], []
     for n in uses:
         par = n._parent
-        ok = isinstance(par, ast.Subscript) and isinstance(par.slice, ast.Tuple) and len(par.slice.elts) == 2 and norm_src(par.slice.elts[0]) == ":" \
-            and isinstance(par.slice.elts[1], ast.Slice) and norm_src(par.slice.elts[1].lower) == "z[0]" and norm_src(par.slice.elts[1].upper) == "z[0] + 1"
-        lam = next((p for p in _parents(n) if isinstance(p, ast.Lambda)), None)
-        ok = ok and lam is not None and [a.arg for a in lam.args.args] == ["z"]
-        if not ok:
+        if isinstance(par, ast.Attribute) and par.attr in ("shape", "dtype", "ndim"):
+            continue
+        if not (isinstance(par, ast.Subscript) and par.value is n):
+            bad.append(n)           # the whole matrix is handed on
+            continue
+        sl = par.slice
+        if not (isinstance(sl, ast.Tuple) and len(sl.elts) == 2 and norm_src(sl.elts[0]) == ":"):
+            odd.append(n)
+            continue
+        col = sl.elts[1]
+        if isinstance(col, ast.Slice) and col.lower is not None and col.upper is not None and col.step is None:
+            from ..match import canon_equal
+            if norm_src(col.lower) in idx_exprs and canon_equal(col.upper, f"{norm_src(col.lower)} + 1"):
+                continue
             bad.append(n)
-    maps = [n for n in ast.walk(inf) if isinstance(n, ast.Call) and call_name(n) == "map" and len(n.args) == 2 and norm_src(n.args[1]) == "self.cut_points_list_"]
-    if uses and not bad and maps:
-        ctx.ok("C15-a", site, f"{len(uses)} read(s), only the column z[0] of each listed (feature, cuts) pair")
-    else:
-        st = _stmt(bad[0]) if bad else inf
+        elif isinstance(col, ast.List) and len(col.elts) == 1 and norm_src(col.elts[0]) in idx_exprs:
+            continue
+        elif norm_src(col) in idx_exprs:
+            continue
+        else:
+            bad.append(n)
+    if uses and not bad and not odd and idx_exprs:
+        ctx.ok("C15-a", site, f"{len(uses)} read(s), only the column of each listed (feature, cuts) pair")
+    elif bad:
+        st = _stmt(bad[0])
         ctx.violation("C15-a", u.relpath, "Douglas._infer", norm_src(st)[:160], "X is read other than through the column of a feature listed in cut_points_list_", line=st.lineno, site=site)
+    else:
+        ctx.unrecognised("C15-a", site, "no read of X through the items of cut_points_list_ was identified")
     # construction of cut_points_list_
     stores = [s for s in ast.walk(ip) if isinstance(s, ast.Assign) and attr_chain(s.targets[0]) == "self.cut_points_list_"]
     site = "Douglas._init_params: cut_points_list_"
@@ -227,8 +269,22 @@ def run(pm, ctx):
     expect_assign(ctx, "C15-b", u, "Douglas._infer", inf, "leaf", ["reduce(self._merge_leaf, all_binnings)"], "Douglas._infer: leaf memberships", "the leaves are not the product over all used features")
     expect_assign(ctx, "C15-b", u, "Douglas._infer", inf, "y_pred", ["leaf @ self.leaf_scores_"], "Douglas._infer: scores", "predictions are not leaf memberships times leaf scores")
     # ------------------------------------------------------------------ c
-    o = expect_assign(ctx, "C15-c", u, "Douglas._leaf_binning", lb, "order", ["np.argsort(cut_points)"], "Douglas._leaf_binning: order", "the cuts are not sorted in ascending order")
-    sc = expect_assign(ctx, "C15-c", u, "Douglas._leaf_binning", lb, "sorted_cut_points", ["cut_points[order]"], "Douglas._leaf_binning: sorted cuts", "the biases are not built from the sorted cuts")
+    # the map cuts -> biases as a linear sequence map (E9): decided whatever the spelling; the literal forms below are only the fallback
+    from .. import e9_douglas
+    e9res, e9fw, e9bw = e9_douglas.judge_full(pm)
+    e9f = {site: (status, detail, where) for site, status, detail, where in e9res if site.startswith("Douglas._leaf_binning")}
+    fwd = e9f.get("Douglas._leaf_binning: cuts -> biases", ("undecided", "", None))
+    if fwd[0] != "undecided":
+        for site, (status, detail, (meth, line)) in e9f.items():
+            if status == "exact":
+                ctx.ok("C15-c", site, detail)
+            elif status == "different":
+                ctx.violation("C15-c", u.relpath, f"Douglas.{meth}", site, detail, line=line or lb.lineno, site=site)
+            else:
+                ctx.unrecognised("C15-c", site, detail)
+    else:
+        o = expect_assign(ctx, "C15-c", u, "Douglas._leaf_binning", lb, "order", ["np.argsort(cut_points)"], "Douglas._leaf_binning: order", "the cuts are not sorted in ascending order")
+        sc = expect_assign(ctx, "C15-c", u, "Douglas._leaf_binning", lb, "sorted_cut_points", ["cut_points[order]"], "Douglas._leaf_binning: sorted cuts", "the biases are not built from the sorted cuts")
     # slopes of the bin logits: consecutive bins must differ by exactly x, so that (with the cumulative biases) bin k beats bin k-1 iff
     # x exceeds the k-th smallest cut: slopes 1, 2, ..., n+1 (any start, unit step)
     wdef = [s_ for s_ in ast.walk(lb) if isinstance(s_, ast.Assign) and norm_src(s_.targets[0]) == "W"]
@@ -259,7 +315,9 @@ def run(pm, ctx):
             ctx.unrecognised("C15-c", site, norm_src(wdef[0])[:80])
     bdef = [s_ for s_ in ast.walk(lb) if isinstance(s_, ast.Assign) and norm_src(s_.targets[0]) == "b"]
     site = "Douglas._leaf_binning: biases"
-    if not bdef:
+    if fwd[0] != "undecided":
+        pass
+    elif not bdef:
         ctx.unrecognised("C15-c", site, "no bias b")
     elif "np.cumsum(np.concatenate([np.zeros(1), -sorted_cut_points]))" in norm_src(bdef[0].value) or equal_resolved(
             bdef[0], bdef[0].value, ["np.cumsum(np.concatenate([np.zeros(1), -sorted_cut_points])).reshape((1, -1))"]):
@@ -267,12 +325,23 @@ def run(pm, ctx):
     else:
         ctx.violation("C15-c", u.relpath, "Douglas._leaf_binning", norm_src(bdef[0]), "the bin biases are not the cumulative sums of the negated sorted cut points", line=bdef[0].lineno, site=site)
     if len(rets) == 1 and isinstance(rets[0].value, ast.Tuple) and len(rets[0].value.elts) == 2:
-        if norm_src(rets[0].value.elts[1]) == "order":
+        if e9fw is not None and e9fw["order"] is not None:
+            if e9fw["order"].exp == e9fw["bias"].in_perm:
+                ctx.ok("C15-c", "Douglas._leaf_binning: the sorting permutation is returned for back-propagation")
+            else:
+                ctx.violation("C15-c", u.relpath, "Douglas._leaf_binning", norm_src(rets[0]), "the permutation returned is not the one used to sort the cuts", line=rets[0].lineno,
+                              site="_leaf_binning: returned order")
+        elif norm_src(rets[0].value.elts[1]) == "order":
             ctx.ok("C15-c", "Douglas._leaf_binning: the sorting permutation is returned for back-propagation")
         else:
             ctx.violation("C15-c", u.relpath, "Douglas._leaf_binning", norm_src(rets[0]), "the permutation returned is not the one used to sort the cuts", line=rets[0].lineno, site="_leaf_binning: returned order")
     # parity of argsort between the sorted-space gradient and the re-indexing
     back = [s for s in ast.walk(cg) if isinstance(s, ast.Assign) and norm_src(s.targets[0]) == "cut_grad"]
+    e9b = [r for r in e9res if r[0].startswith("Douglas._compute_grads") and r[1] != "undecided"]
+    if e9b:
+        # the backward pass through sort / padding / cumsum is decided by C03-m / C03-i on the derived maps (it is part of C03's statement, not C15's)
+        expect_assign(ctx, "C15-c", u, "Douglas._infer", inf, "all_orders", ["[x[1] for x in all_binnings_results]"], "Douglas._infer: retained orders", "the retained orders are not those returned by _leaf_binning")
+        return _c15d(pm, ctx, u, fa)
     site = "Douglas._compute_grads: inverse permutation"
     okp = False
     if len(back) == 1 and isinstance(back[0].value, ast.Subscript):
@@ -295,6 +364,10 @@ def run(pm, ctx):
     expect_assign(ctx, "C15-c", u, "Douglas._compute_grads", cg, "cumsum_grad", ["-np.cumsum(bias_grad[::-1])[::-1]"], "Douglas._compute_grads: cumulative bias", "the back-propagation "
                   "through b = cumsum(-sorted cuts) is not the negated reverse cumulative sum")
     expect_assign(ctx, "C15-c", u, "Douglas._infer", inf, "all_orders", ["[x[1] for x in all_binnings_results]"], "Douglas._infer: retained orders", "the retained orders are not those returned by _leaf_binning")
+    return _c15d(pm, ctx, u, fa)
+
+
+def _c15d(pm, ctx, u, fa):
     # ------------------------------------------------------------------ d
     loops = [n for n in ast.walk(fa) if isinstance(n, ast.For)]
     site = "Douglas.find_active_points: predicate"
@@ -387,7 +460,8 @@ def controls(pm, tier):
     mut("            if np.any((cut_points > feature.min()) & (cut_points < feature.max())):", "            min_threshold = cut_points.min()\n            max_threshold = cut_points.max()\n            if not (np.all(feature <= min_threshold) or np.all(feature >= max_threshold)):",
         "C15-d", "range test on the extreme cuts only")
     mut("            if np.any((cut_points > feature.min()) & (cut_points < feature.max())):", "            if np.any((cut_points >= feature.min()) & (cut_points <= feature.max())):", "C15-d", "non-strict bounds")
-    mut("            cut_grad = cumsum_grad[np.argsort(self._all_orders[i])]", "            cut_grad = cumsum_grad[self._all_orders[i]]", "C15-c", "forward instead of inverse permutation")
+    mut("np.concatenate([np.zeros(1), -sorted_cut_points])", "np.concatenate([-sorted_cut_points, np.zeros(1)])", "C15-c", "padding after the negated cuts: bin j crosses over at cut j+1")
+    mut("        return softmax(logits / self.temperature), order", "        return softmax(logits * self.temperature), order", "C15-c", "temperature multiplies the logits")
     mut("                                     if self.feature_mask[i]]", "                                     if self.feature_mask[i] or i == 0]", "C15-a", "feature 0 always used")
     mut("        leaf_binning = lambda z: self._leaf_binning(X[:, z[0]:z[0] + 1], z[1])", "        leaf_binning = lambda z: self._leaf_binning(X[:, z[0]:z[0] + 1] + 0 * X.sum(1, keepdims=True), z[1])", "C15-a", "all columns leak into every bin")
     mut("            num_leaf = int((self.n_cuts + 1) ** len(self.cut_points_list_))", "            num_leaf = int((self.n_cuts + 1) ** X.shape[1])", "C15-b", "masked model sized for all features")
